@@ -159,4 +159,198 @@ def exportRegs (rf : RegFile) (little : Bool) : PyRes Bytes :=
       if v ≥ 256 ^ (r.width / 8) ∧ v ≠ 0 then .error .spsdk
       else .ok (b ++ (if little then leEnc (r.width / 8) v else beEnc (r.width / 8) v))) (.ok [])
 
+/-! ## C11 extension: alternative widths and the configuration path (`get_config` / `load_yml_config`)
+
+Everything below only ADDS definitions (Model/ConfigArea.lean and the C11/C12 proofs build on the ones above).
+Facts that the core structures do not carry (hidden bit-fields, enum names shared by several values,
+`alt_widths`) live in a separate `Meta` value that is passed along; `Meta = []` means "none of these". -/
+
+/-- what `RegsBitField` knows beyond `Field` -/
+structure FieldMeta where
+  hidden : Bool := false        -- spec entry without a name ("HIDDEN_BITFIELD_xxx"): reserved bits
+  names : List Nat := []        -- name id of enum entry `k` (several entries may share one name); missing = `k`
+  deriving Repr, DecidableEq
+
+/-- what `Register` knows beyond `Reg` -/
+structure RegMeta where
+  alts : List Nat := []         -- `alt_widths` (None / [] = no alternative widths)
+  fields : List FieldMeta := []
+  deriving Repr, DecidableEq
+
+abbrev Meta := List RegMeta
+
+def Meta.reg (m : Meta) (i : Nat) : RegMeta := m.getD i {}
+def RegMeta.field (rm : RegMeta) (j : Nat) : FieldMeta := rm.fields.getD j {}
+def FieldMeta.nameOf (fm : FieldMeta) (k : Nat) : Nat := fm.names.getD k k
+
+/-! ### alternative widths -/
+
+/-- `get_bytes_cnt_of_int(value, align_to_2n=False)` -/
+def byteCnt (v : Nat) : Nat := if v = 0 then 1 else byteLen v
+
+/-- `Register.get_alt_width(value)`: the smallest alternative width whose byte count holds the value, else the width
+    (the code sorts the list and takes the first hit). -/
+def altWidth (alts : List Nat) (w v : Nat) : Nat :=
+  match alts.filter (fun a => decide (byteCnt v ≤ a / 8)) with
+  | [] => w
+  | a :: as => as.foldl min a
+
+/-- bit position of sub-register `i` when the value is `aw` bits wide -/
+def subPosW (r : Reg) (aw i : Nat) : Nat :=
+  if r.revSubs then aw - (i + 1) * r.subW else i * r.subW
+
+/-- `Register.set_value(int, raw)` of a register with `alt_widths = alts`: the byte reversal works on `alt/8` bytes and
+    only the first `alt / subW` sub-registers are written (the others keep their content). -/
+def Reg.setAlt (r : Reg) (alts : List Nat) (v : Nat) (raw : Bool) : PyRes Reg :=
+  if v ≥ 2 ^ r.width then .error .spsdk else
+  let aw := altWidth alts r.width v
+  let v' : Option Nat := if !raw && r.reverse then brev aw v else some v
+  match v' with
+  | none => .error .spsdk
+  | some v' =>
+    if r.isGroup then
+      let n := aw / r.subW
+      .ok { r with subs := (List.range r.subs.length).map (fun i =>
+              if i < n then (v' >>> subPosW r aw i) &&& mask r.subW else r.subs.getD i 0) }
+    else .ok { r with value := v' }
+
+/-- `Register.get_value(raw)` with `alt_widths = alts`: the alternative width is recomputed from the stored value -/
+def Reg.getAlt (r : Reg) (alts : List Nat) (raw : Bool) : PyRes Nat :=
+  let v := if r.isGroup then assemble r else r.value
+  if !raw && r.reverse then
+    match brev (altWidth alts r.width v) v with
+    | some x => .ok x
+    | none => .error .spsdk
+  else .ok v
+
+/-! ### configuration values -/
+
+/-- a bit-field value inside a configuration -/
+inductive CfgVal where
+  | enumName (n : Nat)      -- a string used as enum name (name id `n`)
+  | num (v : Nat)           -- an int or a numeric string
+  | rawNum (v : Nat)        -- "RAW:<number>": written without the config pre-processor
+  deriving Repr, DecidableEq
+
+/-- the configuration of one register -/
+inductive RegCfg where
+  | value (v : Nat)                     -- `{"value": x}` or a plain int / numeric string
+  | fields (l : List (Nat × CfgVal))    -- `{name: x, …}` / `{"bitfields": {…}}`, bit-fields by index, in dict order
+  deriving Repr, DecidableEq
+
+/-- what `find_reg(name, include_group_regs=True)` resolves a key to -/
+inductive RegRef where
+  | top (i : Nat)
+  | sub (i k : Nat)                     -- sub-register `k` of grouped register `i`
+  deriving Repr, DecidableEq
+
+def RegRef.idx : RegRef → Nat
+  | .top i => i
+  | .sub i _ => i
+
+abbrev Cfg := List (RegRef × RegCfg)
+
+/-- `RegsBitField.get_enum_constant(name)`: value of the first entry with that name -/
+def enumConst (f : Field) (fm : FieldMeta) (n : Nat) : Option Nat :=
+  match (List.range f.enums.length).find? (fun k => fm.nameOf k == n) with
+  | some k => f.enums[k]?
+  | none => none
+
+/-- `RegsBitField.get_enum_value()` (after 85623b6): the name of the first entry with the current value, provided
+    that name decodes back to this value; otherwise the number (rendered as hex string by the code). -/
+def enumValueOf (r : Reg) (f : Field) (fm : FieldMeta) : PyRes CfgVal :=
+  match fieldGet r f with
+  | .error e => .error e
+  | .ok v =>
+    match (List.range f.enums.length).find? (fun k => f.enums.getD k 0 == v) with
+    | some k => if enumConst f fm (fm.nameOf k) = some v then .ok (.enumName (fm.nameOf k)) else .ok (.num v)
+    | none => .ok (.num v)
+
+/-- the bit-field part of `get_config(diff=False)`: every bit-field except hidden ones that hold their reset value -/
+def fieldsConfig (r : Reg) (rm : RegMeta) : List Field → Nat → PyRes (List (Nat × CfgVal))
+  | [], _ => .ok []
+  | f :: fs, j =>
+    match fieldGet r f with
+    | .error e => .error e
+    | .ok v =>
+      if (rm.field j).hidden && v == f.reset then fieldsConfig r rm fs (j + 1)
+      else match enumValueOf r f (rm.field j), fieldsConfig r rm fs (j + 1) with
+        | .error e, _ => .error e
+        | _, .error e => .error e
+        | .ok c, .ok rest => .ok ((j, c) :: rest)
+
+/-- one entry of `get_config`: bit-field dictionary when the register has bit-fields, else its (processed) value -/
+def regConfig (r : Reg) (rm : RegMeta) : PyRes RegCfg :=
+  if r.fields.isEmpty then
+    match r.getAlt rm.alts false with
+    | .error e => .error e
+    | .ok v => .ok (.value v)
+  else
+    match fieldsConfig r rm r.fields 0 with
+    | .error e => .error e
+    | .ok l => .ok (.fields l)
+
+def getConfigFrom (m : Meta) : RegFile → Nat → PyRes Cfg
+  | [], _ => .ok []
+  | r :: rs, i =>
+    match regConfig r (m.reg i), getConfigFrom m rs (i + 1) with
+    | .error e, _ => .error e
+    | _, .error e => .error e
+    | .ok c, .ok rest => .ok ((.top i, c) :: rest)
+
+/-- `_RegistersBase.get_config(diff=False)` (every register of `_registers`, hidden ones included) -/
+def getConfig (m : Meta) (rf : RegFile) : PyRes Cfg := getConfigFrom m rf 0
+
+/-- `bitfield.set_enum_value(val, raw=True)` as `_load_yml_config` calls it: enum name → constant, otherwise the
+    number; an unknown name is an error (also after the "backward compatibility" retry) -/
+def loadField (r : Reg) (f : Field) (fm : FieldMeta) : CfgVal → PyRes Reg
+  | .enumName n => match enumConst f fm n with
+    | some v => fieldSet r f v true false
+    | none => .error .spsdk
+  | .num v => fieldSet r f v true false
+  | .rawNum v => fieldSet r f v true true
+
+def loadFields (r : Reg) (rm : RegMeta) : List (Nat × CfgVal) → PyRes Reg
+  | [] => .ok r
+  | (j, c) :: rest =>
+    match r.fields[j]? with
+    | none => .error .spsdk                    -- `find_bitfield` raises
+    | some f => match loadField r f (rm.field j) c with
+      | .error e => .error e
+      | .ok r' => loadFields r' rm rest
+
+/-- one register entry of `_load_yml_config` -/
+def loadReg (r : Reg) (rm : RegMeta) : RegCfg → PyRes Reg
+  | .value v => r.setAlt rm.alts v false
+  | .fields l =>
+    match loadFields r rm l with
+    | .error e => .error e
+    | .ok r1 =>
+      -- "Run the processing of loaded register value": `register.set_value(register.get_value(True), False)`
+      match r1.getAlt rm.alts true with
+      | .error e => .error e
+      | .ok v => r1.setAlt rm.alts v false
+
+/-- an entry that names a sub-register of a group (sub-registers are plain, never reversed, and carry no
+    bit-fields in this model) -/
+def loadSub (r : Reg) (k : Nat) : RegCfg → PyRes Reg
+  | .value v =>
+    if r.isGroup ∧ k < r.subs.length then
+      (if v ≥ 2 ^ r.subW then .error .spsdk else .ok { r with subs := r.subs.set k v })
+    else .error .spsdk
+  | .fields [] => if r.isGroup ∧ k < r.subs.length then .ok r else .error .spsdk
+  | .fields (_ :: _) => .error .spsdk
+
+def loadEntry (m : Meta) (rf : RegFile) : RegRef × RegCfg → PyRes RegFile
+  | (.top i, c) => updAt rf i (fun r => loadReg r (m.reg i) c)
+  | (.sub i k, c) => updAt rf i (fun r => loadSub r k c)
+
+/-- `_RegistersBase._load_yml_config(cfg)`; stops at the first entry that fails -/
+def loadConfig (m : Meta) (rf : RegFile) : Cfg → PyRes RegFile
+  | [] => .ok rf
+  | e :: es =>
+    match loadEntry m rf e with
+    | .error err => .error err
+    | .ok rf' => loadConfig m rf' es
+
 end SpsdkVerif.Regs
